@@ -1,61 +1,188 @@
 """C20 -- the model cache is never used when stale.
 
-E1: BFS to closure over histories of source edits (each with a strictly later mtime, set explicitly from a
-logical clock), file additions, option changes, version changes and real transfer_model calls on one model
-folder + one library folder.  Every transfer_model result is compared (vf.core.mcache.canon) with
-_compile_model of the current sources under the current options.
+E1: BFS over histories of source edits (each with a strictly later mtime, set explicitly from a logical
+clock), file additions that change the flattened model, option changes (Boolean switches AND value changes of
+the non-Boolean options), version changes and real transfer_model calls on one model folder + library folders.
+Every transfer_model result is compared (vf.core.mcache.canon) with _compile_model of the current sources under
+the current options.
+
+Process state is part of the explored state: a history is replayed *in one process against one folder path*
+(the way an application uses pymoca), every transition is evaluated in a fork of that process (fork = snapshot
+of the process memory; the folder is snapshotted / restored in place), and the abstract state records what the
+cache code of this process has been through ("proc": nothing / compiled only / last load attempt hit / missed).
+So anything pymoca remembers per process between two transfer_model calls is exercised, and nothing leaks
+between sibling transitions or between histories (each history gets its own path and its own process).
 """
+import hashlib
 import os
+import pickle
 import shutil
+import traceback
 
 from vf.core import bfs, common, mcache
 
 LEVEL = "model_checking"
 
-MAIN = {
-    "A": "model Main\n  extends LibBase;\n  Part prt;\n  parameter Real p = 2;\n  constant Real c = 4;\n  Real x(start = 1);\n  Real a;\n  Real z;\nequation\n  der(x) = -p * x + c;\n  a = x;\n  z = 3;\nend Main;\n",
-    "B": "model Main\n  extends LibBase;\n  Part prt;\n  parameter Real p = 3;\n  constant Real c = 4;\n  Real x(start = 1);\n  Real a;\n  Real z;\nequation\n  der(x) = -p * x + c + 1;\n  a = x;\n  z = 3;\nend Main;\n",
-}
+# The model uses one top-level constant package per "slot" (C0..C3, all k = 1, defined in the library).  An
+# added file `within P; package C<i> ... k = <i+2>` puts P.C<i> in front of it, so *adding* that file changes
+# the flattened model of P.Main without touching any existing file.
+_MAIN = """package P
+  model Main
+    extends LibBase;
+    Part prt;
+    parameter Real p = %(p)s;
+    parameter Real q = 2 * p;
+    constant Real c = 4;
+    Real x(start = 1);
+    Real a;
+    Real z;
+    Real a_aux;
+    Real b_aux;
+    Real v[2];
+    Real s;
+    Real dx;
+    Real g[2];
+  equation
+    der(x) = -p * x + c + a_aux + b_aux%(extra)s;
+    a = x;
+    z = 3 * C0.k + 5 * C1.k + 7 * C2.k + 11 * C3.k;
+    a_aux = 2 * x;
+    b_aux = 3 * x + 1;
+    v[1] = x;
+    v[2] = 2 * x + v[1];
+    s = sq(x) + q;
+    dx = der(x);
+    for i in 1:2 loop
+      g[i] = i * x;
+    end for;
+  end Main;
+end P;
+"""
+MAIN = {"A": _MAIN % {"p": "2", "extra": ""}, "B": _MAIN % {"p": "3", "extra": " + 1"}}
 PART = {
     "A": "model Part\n  Real w(max = 10);\nequation\n  w = 1;\nend Part;\n",
-    "B": "model Part\n  Real w(max = 20);\nequation\n  w = 2 * time;\nend Part;\n",
+    "B": "model Part\n  Real w(max = 20);\nequation\n  w = 2;\nend Part;\n",
 }
-LIB = {
-    "A": "model LibBase\n  parameter Real k = 1;\n  Real y;\nequation\n  y = k;\nend LibBase;\n",
-    "B": "model LibBase\n  parameter Real k = 5;\n  Real y(min = 0);\nequation\n  y = 2 * k;\nend LibBase;\n",
+_LIB = "model LibBase\n  parameter Real k = %s;\n  Real y%s;\nequation\n  y = %s;\nend LibBase;\nfunction sq\n  input Real u;\n  output Real r;\nalgorithm\n  r := 2 * u + 1;\nend sq;\n"
+LIB = {"A": _LIB % ("1", "", "k"), "B": _LIB % ("5", "(min = 0)", "2 * k"), "C": _LIB % ("7", "(min = -1)", "3 * k")}
+NSLOT = 4
+CONSTS = "".join("package C%d\n  constant Real k = 1;\nend C%d;\n" % (i, i) for i in range(NSLOT))
+SHADOW = "within P;\npackage C%d\n  constant Real k = %d;\nend C%d;\n"
+OTHER = "model Other_%s\n  Real q;\nequation\n  q = 1;\nend Other_%s;\n"
+# addable files: id -> (folder, relative path, text).  0..3 change the model (top level / new subfolder of the
+# model folder / of the library folder), U0 / U1 are unrelated to the model.
+ADDS = {
+    0: ("model", "PC0.mo", SHADOW % (0, 2, 0)),
+    1: ("lib", os.path.join("sub", "PC1.mo"), SHADOW % (1, 3, 1)),
+    2: ("model", os.path.join("sub", "PC2.mo"), SHADOW % (2, 4, 2)),
+    3: ("lib", "PC3.mo", SHADOW % (3, 5, 3)),
+    "U0": ("model", "Other_model.mo", OTHER % ("model", "model")),
+    "U1": ("lib", "Other_lib.mo", OTHER % ("lib", "lib")),
 }
-OTHER = "model Other\n  Real q;\nequation\n  q = 1;\nend Other;\n"
-SWITCHES = [
+# Option sets.  Every option of _options.py:
+#   Boolean, default False -> one set switching it on; Boolean, default True -> one set switching it off;
+#   eliminable_variable_expression (str | None) -> two different regular expressions (they eliminate different
+#     variables of Main; the option demands expand_mx, which caching implies anyway);
+#   allow_derivative_aliases only acts under detect_aliases -> combined set;
+#   library_folders (list) -> separate event "libs" (two folders holding different libraries);
+#   cache / codegen -> "mode" event; mtime_check=False is the user opting out (outside the property).
+# Observable in the compiled model of Main (by value): expand_vectors, resolve_parameter_values,
+# replace_parameter_expressions, eliminate_constant_assignments, replace_parameter_values, replace_constant_values,
+# detect_aliases, detect_aliases+allow_derivative_aliases=False, both regular expressions (and they differ from
+# each other).  Not observable in the model (verbose, check_balanced, unroll_loops, inline_functions, expand_mx,
+# replace_constant_expressions, factor_and_simplify_equations, reduce_affine_expression give an equal model here):
+# for those only the second clause (a loaded cache was written for the current options) can fail.
+SWITCH_ON = [
     "detect_aliases", "replace_constant_values", "eliminate_constant_assignments", "replace_parameter_values",
     "expand_vectors", "replace_parameter_expressions", "replace_constant_expressions", "resolve_parameter_values",
-    "factor_and_simplify_equations",
+    "factor_and_simplify_equations", "reduce_affine_expression", "verbose", "expand_mx",
 ]  # fmt: skip
+SWITCH_OFF = ["check_balanced", "unroll_loops", "inline_functions"]
 OPTIONS = {"plain": {}}
-for _s in SWITCHES:
+for _s in SWITCH_ON:
     OPTIONS[_s] = {_s: True}
-QUICK_OPTIONS = ["plain", "detect_aliases", "replace_constant_values", "eliminate_constant_assignments"]
+for _s in SWITCH_OFF:
+    OPTIONS["no_" + _s] = {_s: False}
+OPTIONS["aliases_no_der"] = {"detect_aliases": True, "allow_derivative_aliases": False}
+OPTIONS["elim_a"] = {"eliminable_variable_expression": "a_.*", "expand_mx": True}
+OPTIONS["elim_b"] = {"eliminable_variable_expression": "b_.*", "expand_mx": True}
+QUICK_OPTIONS = ["plain", "detect_aliases", "replace_constant_values", "elim_a", "elim_b"]
+# An exploration profile = an alphabet + a bound.  The quick tier is the profile "base"; the thorough tier runs
+# "base" one event deeper (and with process restarts) and then widens one dimension at a time over it.
+#   files: which of the three existing files are rewritten; touch: also with their present content;
+#   adds: which files can be added; opts: option sets; libs / ver / mode / restart: whether those events exist.
+_BASE = dict(files=("main", "part", "lib"), touch=False, adds=(0, 1), opts=tuple(QUICK_OPTIONS), libs=True, ver=True, mode=False, restart=False)
+PROFILES = {
+    "quick": [dict(_BASE, name="base", depth=5)],
+    "thorough": [
+        dict(_BASE, name="base+restart", depth=6, restart=True),
+        dict(_BASE, name="options", depth=5, files=("main",), adds=(), opts=tuple(OPTIONS)),
+        dict(_BASE, name="files", depth=5, touch=True, adds=(0, 1, 2, 3, "U0", "U1"), opts=("plain", "elim_a"), ver=False),
+        dict(_BASE, name="codegen", depth=5, files=("main",), adds=(1,), opts=("plain", "elim_a", "elim_b"), libs=False, mode=True),
+    ],
+}
+REPLAY_PROFILE = dict(_BASE, name="replay", depth=None, mode=True, restart=True, touch=True, adds=tuple(ADDS), opts=tuple(OPTIONS))
 VERSIONS = ["1.0.0", "1.0.1"]
+MODEL_NAME = "P.Main"
 T0 = 1_700_000_000
 _EXPECT = {}
 _CFG = {}
+
+
+def _in_child(fn, *args):
+    """Run fn(*args) in a fork of the calling process and return its (pickled) result."""
+    r, w = os.pipe()
+    pid = os.fork()
+    if pid == 0:
+        code = 0
+        try:
+            os.close(r)
+            try:
+                out = ("ok", fn(*args))
+            except BaseException:
+                out = ("err", traceback.format_exc())
+            with os.fdopen(w, "wb") as f:
+                pickle.dump(out, f, protocol=-1)
+        except BaseException:
+            code = 1
+        finally:
+            os._exit(code)
+    os.close(w)
+    with os.fdopen(r, "rb") as f:
+        data = f.read()
+    os.waitpid(pid, 0)
+    if not data:
+        raise RuntimeError("C20: forked evaluation of %s died without a result" % fn.__name__)
+    kind, val = pickle.loads(data)
+    if kind == "err":
+        raise RuntimeError("C20: forked evaluation of %s failed:\n%s" % (fn.__name__, val))
+    return val
 
 
 class World:
     def __init__(self):
         self.root = common.new_scratch("c20")
         self.mdir = os.path.join(self.root, "model")
-        self.ldir = os.path.join(self.root, "lib")
+        self.ldirs = [os.path.join(self.root, "lib"), os.path.join(self.root, "lib2")]
         self.tick = 0
         self.main, self.lib, self.part = "A", "A", "A"
         self.extras = frozenset()
         self.opt = "plain"
         self.ver = 0
         self.mode = "cache"
+        self.libsel = 0  # library_folders = [ldirs[libsel]]
         self.cache = None  # description of what the cache file was built from
         self.dirty = False  # a source got a later mtime than the cache file
-        self._write(self.mdir, "Main.mo", MAIN["A"])
+        # what the cache code has been through *in this process*: "none" (no transfer_model yet), "compiled"
+        # (only calls that found no cache file), "hit" / "miss" (outcome of the latest call that found one)
+        self.proc = "none"
+        self.ref_in_child = False  # replay: keep the reference compile out of the observed process
+        self._write(self.mdir, "P.mo", MAIN["A"])
         self._write(self.mdir, "Part.mo", PART["A"])
-        self._write(self.ldir, "Lib.mo", LIB["A"])
+        self._write(self.ldirs[0], "Lib.mo", LIB["A"])
+        self._write(self.ldirs[0], "Consts.mo", CONSTS)
+        self._write(self.ldirs[1], "Lib.mo", LIB["C"])
+        self._write(self.ldirs[1], "Consts.mo", CONSTS)
 
     def now(self):
         self.tick += 1
@@ -65,41 +192,68 @@ class World:
         mcache.write_files(folder, {name: text}, mtime=self.now())
 
     def desc(self):
-        return (self.main, self.part, self.lib, self.extras, self.opt, self.ver, self.mode)
+        return (self.main, self.part, self.lib, tuple(sorted(self.extras, key=str)), self.opt, self.ver, self.mode, self.libsel)
 
     def options(self):
         o = dict(OPTIONS[self.opt])
         o[self.mode] = True
-        o["library_folders"] = [self.ldir]
+        o["library_folders"] = [self.ldirs[self.libsel]]
         return o
 
-    def clone(self):
-        w = World.__new__(World)
-        w.__dict__.update(self.__dict__)
-        w.root = common.new_scratch("c20")
-        shutil.rmtree(w.root)
-        shutil.copytree(self.root, w.root, copy_function=shutil.copy2)
-        w.mdir = os.path.join(w.root, "model")
-        w.ldir = os.path.join(w.root, "lib")
-        return w
+    # -- the folder is snapshotted / restored *in place*: the path is part of what a process may remember
+    def snapshot(self):
+        snap = []
+        for d, _dirs, files in os.walk(self.root):
+            snap.append((os.path.relpath(d, self.root), None, None))
+            for f in files:
+                p = os.path.join(d, f)
+                st = os.stat(p)
+                with open(p, "rb") as fh:
+                    snap.append((os.path.relpath(p, self.root), fh.read(), (st.st_atime_ns, st.st_mtime_ns, st.st_mode)))
+        return snap
+
+    def restore(self, snap):
+        for f in os.listdir(self.root):
+            p = os.path.join(self.root, f)
+            shutil.rmtree(p) if os.path.isdir(p) else os.remove(p)
+        for rel, data, st in snap:
+            p = os.path.normpath(os.path.join(self.root, rel))
+            if data is None:
+                os.makedirs(p, exist_ok=True)
+                continue
+            with open(p, "wb") as fh:
+                fh.write(data)
+            os.chmod(p, st[2] & 0o7777)
+            os.utime(p, ns=(st[0], st[1]))
 
     def events(self):
+        pr = _CFG["profile"]
         evs = [("T",)]
-        evs += [("main", v) for v in "AB"] + [("part", v) for v in "AB"] + [("lib", v) for v in "AB"]
-        evs += [("add", "model"), ("add", "lib")]
-        names = list(OPTIONS) if _CFG.get("tier") == "thorough" else QUICK_OPTIONS
-        evs += [("opt", o) for o in names if o != self.opt]
-        evs += [("ver", i) for i in range(len(VERSIONS)) if i != self.ver]
-        if _CFG.get("tier") == "thorough":
+        # rewriting a file with its present content (a pure touch) can only cause a recompile of the same model
+        same = pr["touch"]
+        for f in pr["files"]:
+            if f != "lib" or self.libsel == 0:  # edits / additions go to the library in use
+                evs += [(f, v) for v in "AB" if same or v != getattr(self, f)]
+        for a in pr["adds"]:
+            if a not in self.extras and (ADDS[a][0] == "model" or self.libsel == 0):
+                evs.append(("add", a))
+        evs += [("opt", o) for o in pr["opts"] if o != self.opt]
+        if pr["libs"]:
+            evs += [("libs", i) for i in range(len(self.ldirs)) if i != self.libsel]
+        if pr["ver"]:
+            evs += [("ver", i) for i in range(len(VERSIONS)) if i != self.ver]
+        if pr["mode"]:
             evs += [("mode", m) for m in ("cache", "codegen") if m != self.mode]
+        if pr["restart"] and self.proc != "none":
+            evs.append(("restart",))
         return evs
 
-    def apply(self, ev):
+    def apply(self, ev, check=True):
         """Returns violations (only T can produce any)."""
         k = ev[0]
         if k == "main":
             self.main = ev[1]
-            self._write(self.mdir, "Main.mo", MAIN[ev[1]])
+            self._write(self.mdir, "P.mo", MAIN[ev[1]])
             self.dirty = True
         elif k == "part":
             self.part = ev[1]
@@ -107,14 +261,24 @@ class World:
             self.dirty = True
         elif k == "lib":
             self.lib = ev[1]
-            self._write(self.ldir, "Lib.mo", LIB[ev[1]])
+            self._write(self.ldirs[0], "Lib.mo", LIB[ev[1]])
             self.dirty = True
         elif k == "add":
-            name = "Other_%s.mo" % ev[1]
-            if (ev[1], name) in self.extras:
+            if ev[1] in self.extras:
                 return []
-            self.extras = self.extras | {(ev[1], name)}
-            self._write(self.mdir if ev[1] == "model" else self.ldir, name, OTHER.replace("Other", "Other_" + ev[1]))
+            where, rel, text = ADDS[ev[1]]
+            self.extras = self.extras | {ev[1]}
+            self._write(self.mdir if where == "model" else self.ldirs[0], rel, text)
+            self.dirty = True
+        elif k == "libs":
+            # library_folders now names another folder, whose files are later than the cache (a library that was
+            # just installed / updated): the property's premise; the folder left behind is not touched.
+            self.libsel = ev[1]
+            t = self.now()
+            for d, _dirs, files in os.walk(self.ldirs[self.libsel]):
+                for f in files:
+                    if f.endswith(".mo"):
+                        os.utime(os.path.join(d, f), (t, t))
             self.dirty = True
         elif k == "opt":
             self.opt = ev[1]
@@ -122,36 +286,42 @@ class World:
             self.ver = ev[1]
         elif k == "mode":
             self.mode = ev[1]
+        elif k == "restart":
+            self.proc = "none"  # the caller continues in a process that has not used pymoca yet
         elif k == "T":
-            return self.transfer()
+            return self.transfer(check)
         return []
 
-    def transfer(self):
+    def transfer(self, check=True):
         from pymoca.backends.casadi import api
 
         api.__version__ = VERSIONS[self.ver]
-        cfile = os.path.join(self.mdir, "Main.pymoca_cache")
+        cfile = os.path.join(self.mdir, MODEL_NAME + ".pymoca_cache")
         before = os.stat(cfile).st_mtime_ns if os.path.exists(cfile) else None
         cwd = os.getcwd()
         os.chdir(self.mdir)
         try:
             try:
-                m = api.transfer_model(self.mdir, "Main", self.options())
+                m = api.transfer_model(self.mdir, MODEL_NAME, self.options())
             except Exception as e:
                 return [("transfer-raises:" + common.exc_sig(e), "transfer_model raised %r in state %r (cache built from %r)" % (e, self.desc(), self.cache))]
             after = os.stat(cfile).st_mtime_ns if os.path.exists(cfile) else None
+            if before is None:
+                self.proc = "compiled" if self.proc in ("none", "compiled") else self.proc
+            else:
+                self.proc = "hit" if isinstance(m, api.CachedModel) else "miss"
             if after != before:
                 # the cache file was (re)written: in real time that happens after every edit so far
                 t = self.now()
                 for f in os.listdir(self.mdir):
-                    if not f.endswith(".mo"):
+                    if not f.endswith(".mo") and os.path.isfile(os.path.join(self.mdir, f)):
                         os.utime(os.path.join(self.mdir, f), (t, t))
                 self.cache = self.desc()
                 self.dirty = False
+            if not check:
+                return []
             if isinstance(m, api.CachedModel):
                 # a cache that was *loaded* must have been written for the current version and options
-                import pickle
-
                 from pymoca.backends.casadi._options import _merge_default_options
 
                 with open(cfile, "rb") as f:
@@ -167,14 +337,14 @@ class World:
                     bad = sorted(k for k in cur if rec.get(k) != cur[k])
                     return [("loaded-cache-of-other-options:" + "+".join(bad), "transfer_model loaded a cache written for options that differ in %r" % bad)]
             got = mcache.canon(m)
-            exp = expected(self)
+            exp = _in_child(expected, self) if self.ref_in_child else expected(self)
             d = mcache.diff(exp, got)
             if d:
                 used = "the cache" if isinstance(m, api.CachedModel) else "a recompile"
                 return [
                     (
                         "stale-or-wrong-model:%s" % d[0][0],
-                        "transfer_model (%s) differs from compiling the current sources: %s; state %r, cache built from %r, edited since: %r"
+                        "transfer_model (%s) differs from compiling the current sources: %s; state %r, cache built from %r, edited since: %r, this process before the call: see history"
                         % (used, d[0][1][:400], self.desc(), self.cache, self.dirty),
                     )
                 ]
@@ -183,87 +353,195 @@ class World:
             os.chdir(cwd)
 
     def key(self):
-        return (self.desc(), self.cache, self.dirty)
+        return (self.desc(), self.cache, self.dirty, self.proc)
 
     def drop(self):
         shutil.rmtree(self.root, ignore_errors=True)
 
 
 def expected(w):
-    """canon of _compile_model(current sources, current options) -- memoised per source/option description."""
+    """canon of _compile_model(current sources, current options) -- memoised per source/option description (in
+    this process, and for the run in a directory shared by the workers).  Only called as the last thing a forked
+    evaluation does, so the reference compile never runs in a process whose later behaviour is observed."""
     from pymoca.backends.casadi import api
     from pymoca.backends.casadi._options import _merge_default_options
 
-    k = (w.main, w.part, w.lib, w.extras, w.opt)
-    if k not in _EXPECT:
-        o = _merge_default_options(w.options())
-        o["expand_mx"] = True  # caching implies expanding to SX (transfer_model sets it)
-        if o.get("cache") and o.get("codegen"):
-            o["cache"] = False
-        m = api._compile_model(w.mdir, "Main", o)
-        _EXPECT[k] = mcache.canon(m)
+    k = (w.main, w.part, w.lib, tuple(sorted(w.extras, key=str)), w.opt, w.libsel)
+    if k in _EXPECT:
+        return _EXPECT[k]
+    shared = _CFG.get("expect_dir")
+    path = os.path.join(shared, hashlib.sha1(repr(k).encode()).hexdigest() + ".pkl") if shared else None
+    if path and os.path.exists(path):
+        with open(path, "rb") as f:
+            _EXPECT[k] = pickle.load(f)
+        return _EXPECT[k]
+    o = _merge_default_options(w.options())
+    o["expand_mx"] = True  # caching implies expanding to SX (transfer_model sets it); equal by value otherwise
+    if o.get("cache") and o.get("codegen"):
+        o["cache"] = False
+    m = api._compile_model(w.mdir, MODEL_NAME, o)
+    _EXPECT[k] = mcache.canon(m)
+    if path:
+        tmp = "%s.%d.tmp" % (path, os.getpid())
+        with open(tmp, "wb") as f:
+            pickle.dump(_EXPECT[k], f, protocol=-1)
+        os.replace(tmp, path)
     return _EXPECT[k]
 
 
-def _init(tier):
-    _CFG["tier"] = tier
+def _init(profile, expect_dir=None, warm=True):
+    _CFG["profile"] = profile
+    _CFG["expect_dir"] = expect_dir
+    # import (only import) everything the forked evaluations need, so that a fork starts with the modules loaded
+    import pymoca.backends.casadi.api  # noqa: F401
+    import pymoca.parser  # noqa: F401
+
+    from vf.core import cas  # noqa: F401
+
+    if warm:
+        _warm_up()
 
 
-def build(hist):
-    w = World()
+def _warm_up():
+    """One reference compile of every source text in a folder of its own (never the cache code): fills this
+    process's parse cache and the parser's / CasADi's lazily built tables, so that forks do not start cold."""
+    from pymoca.backends.casadi import api
+    from pymoca.backends.casadi._options import _merge_default_options
+
+    root = common.new_scratch("c20warm")
+    try:
+        for i, (m, p, lib) in enumerate([("A", "A", "A"), ("B", "B", "B"), ("A", "A", "C")]):
+            md, ld = os.path.join(root, "m%d" % i), os.path.join(root, "l%d" % i)
+            mcache.write_files(md, {"P.mo": MAIN[m], "Part.mo": PART[p]})
+            mcache.write_files(ld, {"Lib.mo": LIB[lib], "Consts.mo": CONSTS})
+            for a, (where, rel, text) in ADDS.items():
+                if i == 1:
+                    mcache.write_files(md if where == "model" else ld, {rel: text})
+            o = _merge_default_options({"library_folders": [ld], "expand_mx": True})
+            mcache.canon(api._compile_model(md, MODEL_NAME, o))
+    finally:
+        shutil.rmtree(root, ignore_errors=True)
+
+
+def _segments(hist):
+    """Split a history at ("restart",) events: each segment runs in its own fresh process."""
+    segs = [[]]
     for ev in hist:
-        w.apply(tuple(ev))
+        ev = tuple(ev)
+        segs[-1].append(ev)
+        if ev[0] == "restart":
+            segs.append([])
+    return segs
+
+
+def _replay_segment(w, seg):
+    for ev in seg:
+        w.apply(ev, check=False)
     return w
 
 
-def expand(hist):
+def _step(w, ev):
+    viol = w.apply(ev)
+    return {"ev": list(ev), "key": w.key(), "viol": viol, "stop": bool(viol)}
+
+
+def _expand_last(w, seg, only_t):
+    """Runs in the process that carries the history's tail: replay it, then evaluate every enabled event in a fork
+    of this process (the folder is put back in place after each)."""
+    _replay_segment(w, seg)
+    evs = [("T",)] if only_t else w.events()
+    snap = w.snapshot() if len(evs) > 1 else None
     out = []
-    base = build(hist)
-    for ev in base.events():
-        w = base.clone()
-        viol = w.apply(ev)
-        out.append({"ev": list(ev), "key": w.key(), "viol": viol, "stop": bool(viol)})
-        w.drop()
-    base.drop()
+    for i, ev in enumerate(evs):
+        if i:
+            w.restore(snap)
+        out.append(_in_child(_step, w, ev))
     return out
 
 
+def expand(hist):
+    """The calling (worker) process never runs pymoca's cache code itself: it only forks."""
+    segs = _segments(hist)
+    w = World()
+    try:
+        for seg in segs[:-1]:
+            w = _in_child(_replay_segment, w, seg)
+        # a history of maximal length can only violate through a final transfer_model
+        depth = _CFG["profile"]["depth"]
+        only_t = depth is not None and len(hist) + 1 >= depth
+        return _in_child(_expand_last, w, segs[-1], only_t)
+    finally:
+        w.drop()
+
+
 def run(ctx):
-    _init(ctx.tier)
-    depth = 5 if ctx.tier == "quick" else 7
-    with common.Pool(init=_init, initargs=(ctx.tier,)) as pool:
-        w0 = build(())
-        k0 = w0.key()
-        w0.drop()
-        st = bfs.search(ctx, pool, expand, init_key=k0, max_depth=depth)
-    ctx.coverage.update(st)
+    expect_dir = os.path.join(common.scratch_root(), "c20_expect")
+    os.makedirs(expect_dir, exist_ok=True)
+    tot = {"states": 0, "transitions": 0}
+    per, closed = [], True
+    for pr in PROFILES[ctx.tier]:
+        _init(pr, expect_dir, warm=False)
+        with common.Pool(init=_init, initargs=(pr, expect_dir)) as pool:
+            w0 = World()
+            k0 = w0.key()
+            w0.drop()
+            st = bfs.search(ctx, pool, expand, init_key=k0, max_depth=pr["depth"])
+        per.append(dict(st, profile={k: (list(v) if isinstance(v, tuple) else v) for k, v in pr.items()}))
+        tot["states"] += st["states"]
+        tot["transitions"] += st["transitions"]
+        closed = closed and bool(st["closed"])
+    nexp = len([f for f in os.listdir(expect_dir) if f.endswith(".pkl")])
     ctx.coverage.update(
         {
-            "traces_validated_against_impl": st["transitions"],
-            "evaluations": st["transitions"],
-            "distinct_nontrivial": max(0, st["states"] - 1),
+            "states": tot["states"],
+            "transitions": tot["transitions"],
+            "closed": closed,
+            "profiles": per,
+            "traces_validated_against_impl": tot["transitions"],
+            "evaluations": tot["transitions"],
+            "distinct_nontrivial": max(0, tot["states"] - len(per)),
+            "reference_compiles": nexp,
             "exhaustive": True,
-            "bound": {"history_length": depth, "closed_before_bound": bool(st["closed"])},
-            "rule": "BFS over {transfer_model; rewrite Main.mo with variant A|B; rewrite the library file with variant A|B; add an "
-            "unrelated .mo file to the model / library folder; rewrite Part.mo (a second file in the model folder that Main uses); switch between single-switch option sets (4 quick, 10 thorough); switch the pymoca version"
-            + ("; switch cache/codegen" if ctx.tier == "thorough" else "")
-            + "}; every edit gets the next tick of a logical clock as mtime, the cache file gets the next tick when it is written; "
-            "state = (source variants, extra files, options, version, what the cache was built from, edited-since flag); "
-            "every transfer_model result is compared with _compile_model of the current sources/options.",
+            "bound": {"history_length": [pr["depth"] for pr in PROFILES[ctx.tier]], "closed_before_bound": closed},
+            "rule": "BFS, per profile (alphabet + history length, listed under 'profiles'), over {transfer_model; rewrite P.mo (model P.Main), "
+            "Part.mo (second file of the model folder) or the library file with the other variant (touch: or the same one); add a .mo "
+            "file that changes the flattened model (a package shadowing one the model uses: 0 = model folder, 1 = new subfolder of the "
+            "library folder, 2 = new subfolder of the model folder, 3 = library folder) or an unrelated one (U0, U1); switch between option "
+            "sets (every Boolean option of _options.py switched away from its default, eliminable_variable_expression 'a_.*' and "
+            "'b_.*', detect_aliases with allow_derivative_aliases off); point library_folders at another folder whose files are later "
+            "than the cache; switch the pymoca version; switch cache/codegen; restart the process}; every edit gets the next tick "
+            "of a logical clock as mtime, the cache file gets the next tick when it is written; a history runs in ONE process on ONE "
+            "folder path, each transition in a fork of it; state = (source variants, extra files, options, library folder, version, "
+            "mode, what the cache was built from, edited-since flag, what this process's cache code has been through: nothing | compiled "
+            "| last load hit | missed); the last event of a history of maximal length is always transfer_model (nothing else can "
+            "violate); every transfer_model result is compared with _compile_model of the current sources/options, and a cache that was "
+            "loaded must have been written for the current version and options.",
         }
     )
     ctx.assumptions += [
         "every edit has a strictly later mtime than the cache (the property's premise); mtime_check=False and pointing library_folders at older files are outside it",
+        "files are only added or rewritten, never removed or renamed (the statement lists edits and additions)",
     ]
 
 
 def replay(case):
-    _init("thorough")
+    _init(REPLAY_PROFILE)
     w = World()
+    w.ref_in_child = True
     ok = True
-    for ev in case["history"]:
-        v = w.apply(tuple(ev))
-        print(ev, "->", [m for _, m in v] or "ok")
-        ok = ok and not v
-    w.drop()
+    try:
+        for seg in _segments(case["history"]):
+            w, res = _in_child(_replay_checked, w, seg)
+            for ev, v in res:
+                print(ev, "->", [m for _, m in v] or "ok")
+                ok = ok and not v
+    finally:
+        w.drop()
     return ok
+
+
+def _replay_checked(w, seg):
+    res = []
+    for ev in seg:
+        res.append((list(ev), w.apply(ev)))
+    return w, res
